@@ -92,7 +92,10 @@ def run(ctx):
             "INSERT INTO t8 (a) VALUES (1), ()", "INSERT INTO t8 VALUES (1, 'a', TRUE, 2), (1)", "UPDATE t8 SET", "UPDATE t8 SET a", "UPDATE t8 SET a = ",
             "UPDATE t8 SET a = a", "UPDATE t8 SET a = s", "UPDATE t8 SET a = 1, a = 2", "DELETE FROM", "DELETE FROM t8 WHERE", "DELETE t8",
             "CREATE TABLE t9 ()", "CREATE TABLE t9 (a)", "CREATE TABLE t9 (a INT, a INT)", "CREATE TABLE t9 (a VARCHAR)", "CREATE TABLE t9 (a VARCHAR())",
-            "CREATE TABLE t9 (a VARCHAR(0))", "CREATE TABLE (a INT)", "CREATE DATABASE", "CREATE", "USE", "SHOW", "SHOW DATABASE", "SHOW DATABASES x"]
+            "CREATE TABLE t9 (a VARCHAR(0))", "CREATE TABLE (a INT)", "CREATE DATABASE", "CREATE", "USE", "SHOW", "SHOW DATABASE", "SHOW DATABASES x",
+            # names no file system takes: longer than a file name may be, running through a file, empty
+            "CREATE DATABASE " + "d" * 300, "USE " + "d" * 300, 'CREATE DATABASE "a/tbl/x"', 'USE "a/tbl/x"', 'CREATE DATABASE ""', 'USE ""',
+            "CREATE TABLE " + "t" * 300 + " (a INT)", "SELECT * FROM " + "t" * 300, 'CREATE DATABASE "."', 'CREATE DATABASE ".."', 'USE ".."']
     for st in ("nulls", "empty", "nodb"):
         t = rng.randrange(1, len(tables)) if st == "nulls" else 0
         reqs.setdefault((st, t, "near"), []).extend(dict(raw=x, **{"from": [], "list": [], "where": [], "group": [], "order": [], "limit": -1, "offset": -1, "style": 0}) for x in near)
